@@ -174,6 +174,10 @@ struct Outcome {
   inner_total: usize,
   tie_divergence: bool,
   total_groups_short: bool,
+  /// rescored request whose candidate list is not in key order after rescoring
+  rescore_unordered: bool,
+  /// rescored request where groups are first seen in another order than their representatives rank
+  rescore_first_seen_differs: bool,
 }
 
 fn sort_key(v: &Value) -> String {
@@ -244,7 +248,7 @@ fn judge(c: &Case, ri: &Ref, exact: bool) -> Result<Outcome, Fail> {
     expected.push((g.clone(), m[0].clone(), window(&others)));
   }
   let full = c.limit >= c.n;
-  let mut out = Outcome { groups: obs.len(), collapsed_away: 0, inner_total: obs.iter().map(|o| o.2.len()).sum(), tie_divergence: false, total_groups_short: false };
+  let mut out = Outcome { groups: obs.len(), collapsed_away: 0, inner_total: obs.iter().map(|o| o.2.len()).sum(), tie_divergence: false, total_groups_short: false, rescore_unordered: false, rescore_first_seen_differs: false };
   out.collapsed_away = c.n.saturating_sub(c.missing).saturating_sub(obs.len());
 
   // invariants of the statement (hold for every limit); tie classes make them tolerant of a
@@ -367,6 +371,9 @@ fn has_score(sort: &Value) -> bool {
 /// Judge one collapsed request. `refs` caches the uncollapsed rankings per sort plan.
 fn check(reader: &IndexReader, world: &World, reqj: &Value, refs: &mut HashMap<String, Ref>) -> Result<Outcome, (Option<&'static str>, String)> {
   let un = |e: String| (None, e);
+  if reqj.get("rescore").map(|r| !r.is_null()).unwrap_or(false) {
+    return check_rescored(reader, world, reqj, refs).map_err(un);
+  }
   let docs: HashMap<String, Value> = world.docs.iter().map(|d| (d["_id"].as_str().unwrap().to_string(), d.clone())).collect();
   let n = docs.len();
   let query = &reqj["query"];
@@ -511,6 +518,219 @@ fn check(reader: &IndexReader, world: &World, reqj: &Value, refs: &mut HashMap<S
   }
 }
 
+/// Rescore variants: (score_mode, weight of the rescore function_score over match_all). The first-pass
+/// scores of the worlds lie between 0.05 and 2, so `multiply` by 0.5 and `min` with 0.05 lower the
+/// window hits, often below the hits behind the window (the candidate list is then no longer in key
+/// order; measured in the evidence), while `total` raises them.
+fn rescore_variants() -> Vec<Value> {
+  let mut out = Vec::new();
+  for w in 1..=3usize {
+    for (mode, weight) in [("multiply", 0.5), ("min", 0.05), ("total", 0.5)] {
+      out.push(json!({"window_size": w, "score_mode": mode,
+        "query": {"type": "function_score", "query": {"type": "match_all"}, "functions": [{"type": "weight", "weight": weight}]}}));
+    }
+  }
+  out
+}
+
+/// Compare two documents under a sort plan using the final (rescored) scores `fs` for `_score` and,
+/// for a field, the implementation's own ordering of that field (tie classes of the uncollapsed,
+/// un-rescored ranking sorted by that field alone).
+fn cmp_plan(a: &str, b: &str, specs: &[Value], fs: &HashMap<String, f32>, refs: &HashMap<String, Ref>) -> std::cmp::Ordering {
+  use std::cmp::Ordering::*;
+  for s in specs {
+    let f = s["field"].as_str().unwrap_or("");
+    let o = if f == "_score" {
+      let (x, y) = (fs[a], fs[b]);
+      if approx(x, y, 1e-5) {
+        Equal
+      } else {
+        let asc = s.get("order").map(|o| o == "asc").unwrap_or(false);
+        let c = x.partial_cmp(&y).unwrap_or(Equal);
+        if asc {
+          c
+        } else {
+          c.reverse()
+        }
+      }
+    } else {
+      let r = &refs[&sort_key(&json!([s]))];
+      r.class[a].cmp(&r.class[b])
+    };
+    if o != Equal {
+      return o;
+    }
+  }
+  Equal
+}
+
+/// Collapse combined with a rescore whose window is smaller than the candidate pool. README:
+/// "ordering outside the window is unchanged", so the candidate list is not globally ordered and the
+/// order of groups is not judged. Judged (statement): at most one hit per value; every inner hit is
+/// another member of its representative's group; the representative is the best-ranked member of
+/// its group under the request sort with the rescored scores (taken from the same rescored request
+/// without collapse); inner hits follow the inner sort and the from/size window.
+fn check_rescored(reader: &IndexReader, world: &World, reqj: &Value, refs: &mut HashMap<String, Ref>) -> Result<Outcome, String> {
+  let docs: HashMap<String, Value> = world.docs.iter().map(|d| (d["_id"].as_str().unwrap().to_string(), d.clone())).collect();
+  let n = docs.len();
+  let query = &reqj["query"];
+  let main_sort = reqj.get("sort").cloned().unwrap_or(json!([]));
+  let collapse = &reqj["collapse"];
+  let inner_cfg = collapse.get("inner_hits").filter(|v| !v.is_null());
+  let inner_sort: Value = inner_cfg.and_then(|c| c.get("sort").cloned()).unwrap_or(json!([]));
+  let from = inner_cfg.and_then(|c| c.get("from")).and_then(|v| v.as_u64()).unwrap_or(0) as usize;
+  let size: Option<usize> = inner_cfg.and_then(|c| c.get("size")).and_then(|v| v.as_u64()).map(|x| x as usize);
+  let limit = reqj["limit"].as_u64().unwrap_or(0) as usize;
+  let specs_of = |s: &Value| -> Vec<Value> {
+    match s.as_array() {
+      Some(a) if !a.is_empty() => a.clone(),
+      _ => vec![json!({"field": "_score"})],
+    }
+  };
+  let (main_specs, inner_specs) = (specs_of(&main_sort), specs_of(&inner_sort));
+  // the implementation's ordering of each sort field (un-rescored, uncollapsed)
+  for s in main_specs.iter().chain(inner_specs.iter()) {
+    if s["field"] != "_score" {
+      let one = json!([s]);
+      let k = sort_key(&one);
+      if !refs.contains_key(&k) {
+        let r = reference(reader, &docs, query, &one)?;
+        refs.insert(k, r);
+      }
+    }
+  }
+  // the same rescored request without collapse, covering the corpus: final scores and list order
+  let rk = format!("rescored:{}:{}", sort_key(&main_sort), reqj["rescore"]);
+  if !refs.contains_key(&rk) {
+    let r = search_caught(reader, &req(json!({"query": query, "sort": main_sort, "rescore": reqj["rescore"], "limit": n}))).map_err(|e| format!("uncollapsed rescored reference failed: {e}"))?;
+    if r.hits.len() != n {
+      return Err(format!("uncollapsed rescored reference (limit {n}) returned {} of {n} documents", r.hits.len()));
+    }
+    let order: Vec<String> = r.hits.iter().map(|h| h.doc_id.clone()).collect();
+    let pos: HashMap<String, usize> = order.iter().enumerate().map(|(i, x)| (x.clone(), i)).collect();
+    // `class` carries the final score bits (decoded below); tie classes are not used for this Ref
+    let class: HashMap<String, usize> = r.hits.iter().map(|h| (h.doc_id.clone(), h.score.to_bits() as usize)).collect();
+    refs.insert(rk.clone(), Ref { order, pos, class, total: r.total_hits_estimate });
+  }
+  let rr = &refs[&rk];
+  let fs: HashMap<String, f32> = rr.class.iter().map(|(k, v)| (k.clone(), f32::from_bits(*v as u32))).collect();
+  let g_of = |id: &str| -> Option<String> { docs.get(id).and_then(|d| d.get("g")).and_then(|v| v.as_str()).map(|s| s.to_string()) };
+  let mut members: BTreeMap<String, Vec<String>> = BTreeMap::new();
+  let mut first_seen: Vec<String> = Vec::new();
+  let mut missing = 0usize;
+  for id in &rr.order {
+    match g_of(id) {
+      Some(g) => {
+        if !members.contains_key(&g) {
+          first_seen.push(g.clone());
+        }
+        members.entry(g).or_default().push(id.clone());
+      }
+      None => missing += 1,
+    }
+  }
+  let res = search_caught(reader, &req(reqj.clone())).map_err(|e| format!("collapsed rescored request failed: {e}"))?;
+  if res.hits.len() > limit {
+    return Err(format!("{} hits for limit {limit}", res.hits.len()));
+  }
+  let mut obs: Obs = Vec::new();
+  for h in &res.hits {
+    let inner: Vec<String> = h.inner_hits.as_ref().map(|v| v.iter().map(|x| x.doc_id.clone()).collect()).unwrap_or_default();
+    match g_of(&h.doc_id) {
+      Some(g) => obs.push((g, h.doc_id.clone(), inner)),
+      None => {
+        if inner.iter().any(|i| g_of(i).is_some()) {
+          return Err(format!("hit {} has no collapse value but its inner_hits {:?} contain documents of a group", h.doc_id, inner));
+        }
+      }
+    }
+  }
+  let scores_s = || rr.order.iter().map(|i| format!("{i}={}", fs[i])).collect::<Vec<_>>().join(" ");
+  let full = limit >= n;
+  let mut seen_g: HashSet<&str> = HashSet::new();
+  for (g, rep, inner) in &obs {
+    if !seen_g.insert(g.as_str()) {
+      return Err(format!("two hits for collapse value {g}: observed {}", show(&obs)));
+    }
+    let mut seen_i: HashSet<&str> = HashSet::new();
+    for i in inner {
+      if i == rep {
+        return Err(format!("inner_hits of {rep} contain the representative itself: observed {}", show(&obs)));
+      }
+      if g_of(i).as_deref() != Some(g.as_str()) {
+        return Err(format!("inner_hits of {rep} (group {g}) contain {i}, a document of group {:?}: observed {} ; rescored uncollapsed list {}", g_of(i), show(&obs), scores_s()));
+      }
+      if !seen_i.insert(i.as_str()) {
+        return Err(format!("inner_hits of {rep} contain {i} twice: observed {}", show(&obs)));
+      }
+    }
+    if inner_cfg.is_none() && !inner.is_empty() {
+      return Err(format!("inner_hits returned although the request has none: observed {}", show(&obs)));
+    }
+    if let Some(s) = size {
+      if inner.len() > s {
+        return Err(format!("inner_hits of {rep} has {} entries for size {s}: observed {}", inner.len(), show(&obs)));
+      }
+    }
+    for w in inner.windows(2) {
+      if cmp_plan(&w[1], &w[0], &inner_specs, &fs, refs) == std::cmp::Ordering::Less {
+        return Err(format!("inner_hits of {rep} are not ordered by the inner sort with the rescored scores: {:?} ; rescored uncollapsed list {}", inner, scores_s()));
+      }
+    }
+    if full {
+      // the whole corpus is in the candidate pool: the representative is its group's best
+      if let Some(better) = members[g].iter().find(|m| cmp_plan(m, rep, &main_specs, &fs, refs) == std::cmp::Ordering::Less) {
+        return Err(format!("hit {rep} represents group {g} but {better} of the same group ranks strictly better under the request sort after rescoring: observed {} ; rescored uncollapsed list {}", show(&obs), scores_s()));
+      }
+      let others: Vec<&String> = members[g].iter().filter(|m| *m != rep).collect();
+      let exp_len = if inner_cfg.is_none() {
+        0
+      } else {
+        let avail = others.len().saturating_sub(from);
+        size.map(|s| s.min(avail)).unwrap_or(avail)
+      };
+      if inner.len() != exp_len {
+        return Err(format!("inner_hits of {rep} (group {g}) has {} entries, expected {exp_len} (other members {:?}, from {from}, size {:?}): observed {}", inner.len(), others, size, show(&obs)));
+      }
+      for (j, x) in inner.iter().enumerate() {
+        let p = from + j;
+        let less = others.iter().filter(|o| cmp_plan(o, x, &inner_specs, &fs, refs) == std::cmp::Ordering::Less).count();
+        let leq = others.iter().filter(|o| cmp_plan(o, x, &inner_specs, &fs, refs) != std::cmp::Ordering::Greater).count();
+        if !(less <= p && p < leq) {
+          return Err(format!("inner_hits of {rep} (group {g}): {x} cannot stand at position {p} of the group's other members under the inner sort with the rescored scores: observed {} ; rescored uncollapsed list {}", show(&obs), scores_s()));
+        }
+      }
+    }
+  }
+  if full {
+    if obs.len() != members.len() {
+      return Err(format!("{} hits with a collapse value but the matching documents have {} distinct values: observed {}", obs.len(), members.len(), show(&obs)));
+    }
+    let v = members.len();
+    let tg_ok = match res.total_groups.map(|x| x as usize) {
+      Some(t) => t == v || (missing > 0 && (t == v + 1 || t == v + missing)),
+      None => false,
+    };
+    if !tg_ok {
+      return Err(format!("total_groups {:?} but the matching documents have {v} distinct collapse values", res.total_groups));
+    }
+  }
+  // how hard the case is: is the rescored candidate list out of key order, and would ordering the
+  // representatives by key permute the groups?
+  let unordered = rr.order.windows(2).any(|w| cmp_plan(&w[1], &w[0], &main_specs, &fs, refs) == std::cmp::Ordering::Less);
+  let best_of = |g: &String| -> &String { members[g].iter().fold(&members[g][0], |b, m| if cmp_plan(m, b, &main_specs, &fs, refs) == std::cmp::Ordering::Less { m } else { b }) };
+  let differs = first_seen.windows(2).any(|w| cmp_plan(best_of(&w[1]), best_of(&w[0]), &main_specs, &fs, refs) == std::cmp::Ordering::Less);
+  Ok(Outcome {
+    groups: obs.len(),
+    collapsed_away: n.saturating_sub(missing).saturating_sub(obs.len()),
+    inner_total: obs.iter().map(|o| o.2.len()).sum(),
+    tie_divergence: false,
+    total_groups_short: false,
+    rescore_unordered: unordered,
+    rescore_first_seen_differs: differs && full,
+  })
+}
+
 /// All collapsed requests for a world of n documents, simplest first.
 fn requests(n: usize) -> Vec<Value> {
   let mut limits = vec![n];
@@ -554,6 +774,24 @@ fn requests(n: usize) -> Vec<Value> {
           c["inner_hits"] = ih.clone();
         }
         out.push(json!({"query": "a", "sort": m, "collapse": c, "limit": l, "execution": "bm25"}));
+      }
+    }
+  }
+  // collapse + inner_hits combined with a rescore window (1..3) that is smaller than the pool
+  if n >= 2 {
+    let ip = inner_plans();
+    let inner_cfgs = [json!({"sort": ip[0]}), json!({"sort": ip[1], "from": 1}), json!({"sort": ip[2], "size": 1})];
+    let mut lims = vec![n];
+    if n > 2 {
+      lims.push(2);
+    }
+    for m in [&main_plans()[0], &main_plans()[2]] {
+      for rs in rescore_variants() {
+        for ih in &inner_cfgs {
+          for l in &lims {
+            out.push(json!({"query": "a", "sort": m, "collapse": {"field": "g", "inner_hits": ih}, "rescore": rs, "limit": l, "execution": "bm25"}));
+          }
+        }
       }
     }
   }
@@ -645,6 +883,9 @@ pub fn run(ctx: &Ctx) -> i32 {
   let full_cases = AtomicU64::new(0);
   let tie_div = AtomicU64::new(0);
   let tg_short = AtomicU64::new(0);
+  let resc_cases = AtomicU64::new(0);
+  let resc_unordered = AtomicU64::new(0);
+  let resc_differs = AtomicU64::new(0);
   let outcomes: Mutex<HashSet<(usize, usize, usize)>> = Mutex::new(HashSet::new());
   let kept: Mutex<Vec<(usize, Option<&'static str>, String, Value)>> = Mutex::new(Vec::new());
   let fail_counts: Mutex<BTreeMap<String, u64>> = Mutex::new(BTreeMap::new());
@@ -667,7 +908,7 @@ pub fn run(ctx: &Ctx) -> i32 {
       let n = world.docs.len();
       let mut refs: HashMap<String, Ref> = HashMap::new();
       let mut local: HashSet<(usize, usize, usize)> = HashSet::new();
-      let (mut ev, mut nt, mut fc, mut td, mut ts) = (0u64, 0u64, 0u64, 0u64, 0u64);
+      let (mut ev, mut nt, mut fc, mut td, mut ts, mut rc, mut ru, mut rd) = (0u64, 0u64, 0u64, 0u64, 0u64, 0u64, 0u64, 0u64);
       for r in &reqs_by_n[&n] {
         ev += 1;
         match check(&reader, world, r, &mut refs) {
@@ -680,6 +921,15 @@ pub fn run(ctx: &Ctx) -> i32 {
             }
             if r["limit"].as_u64().unwrap_or(0) as usize >= n {
               fc += 1;
+            }
+            if r.get("rescore").is_some() {
+              rc += 1;
+              if o.rescore_unordered {
+                ru += 1;
+              }
+              if o.rescore_first_seen_differs {
+                rd += 1;
+              }
             }
             if o.tie_divergence {
               td += 1;
@@ -697,7 +947,7 @@ pub fn run(ctx: &Ctx) -> i32 {
               seg_topk_no_missing.fetch_add(1, Ordering::Relaxed);
               let mut w = seg_topk_witness.lock();
               if w.is_none() {
-                *w = Some(format!("{} request {}: {}", brief(world), r, what));
+                *w = Some(format!("{} -- {} request {}", what, brief(world), r));
               }
             }
             let label = sig.unwrap_or("unexplained");
@@ -705,7 +955,7 @@ pub fn run(ctx: &Ctx) -> i32 {
             if let Some(s) = sig {
               if rep.is_known_open(s) {
                 if !sent_known.swap(true, Ordering::SeqCst) {
-                  rep.fail(Some(s), &format!("{} request {}: {}", brief(world), r, what), case_json(world, r));
+                  rep.fail(Some(s), &format!("{} -- {} request {}", what, brief(world), r), case_json(world, r));
                 } else {
                   rep.fail(Some(s), "", Value::Null);
                 }
@@ -716,10 +966,10 @@ pub fn run(ctx: &Ctx) -> i32 {
             let mut k = kept.lock();
             let same: Vec<usize> = k.iter().enumerate().filter(|(_, x)| x.1 == sig).map(|(i, _)| i).collect();
             if same.len() < 5 {
-              k.push((key, sig, format!("{} request {}: {}", brief(world), r, what), case_json(world, r)));
+              k.push((key, sig, format!("{} -- {} request {}", what, brief(world), r), case_json(world, r)));
             } else if let Some(wi) = same.iter().max_by_key(|i| k[**i].0).copied() {
               if key < k[wi].0 {
-                k[wi] = (key, sig, format!("{} request {}: {}", brief(world), r, what), case_json(world, r));
+                k[wi] = (key, sig, format!("{} -- {} request {}", what, brief(world), r), case_json(world, r));
               }
             }
           }
@@ -730,6 +980,9 @@ pub fn run(ctx: &Ctx) -> i32 {
       full_cases.fetch_add(fc, Ordering::Relaxed);
       tie_div.fetch_add(td, Ordering::Relaxed);
       tg_short.fetch_add(ts, Ordering::Relaxed);
+      resc_cases.fetch_add(rc, Ordering::Relaxed);
+      resc_unordered.fetch_add(ru, Ordering::Relaxed);
+      resc_differs.fetch_add(rd, Ordering::Relaxed);
       worlds_done.fetch_add(1, Ordering::Relaxed);
       let mut o = outcomes.lock();
       for x in local {
@@ -782,6 +1035,10 @@ pub fn run(ctx: &Ctx) -> i32 {
     "quick_extra" => if quick { "n = 5: every group assignment x variant patterns 31310 / 20000 x layout [1,4]" } else { "" },
     "requests_per_world_n4" => reqs_by_n[&4].len(),
     "cases_with_limit_ge_n_full_equality" => full_cases.load(Ordering::Relaxed),
+    "rescored_cases" => resc_cases.load(Ordering::Relaxed),
+    "rescored_cases_candidate_list_out_of_key_order" => resc_unordered.load(Ordering::Relaxed),
+    "rescored_cases_groups_first_seen_in_other_order_than_their_representatives_rank" => resc_differs.load(Ordering::Relaxed),
+    "rescore_rule" => "2 main sorts ([] and [n desc,_score desc]) x window 1..3 x {multiply by 0.5, min with 0.05, total + 0.5} (function_score weight over match_all) x 3 inner_hits configs x limit {n,2}; group order is not judged for these (README: ordering outside the window is unchanged), the representative-is-best and window-position checks apply at limit = n",
     "cases_equal_only_up_to_ties" => tie_div.load(Ordering::Relaxed),
     "info_cases_limit_lt_n_where_total_groups_is_below_the_number_of_groups" => tg_short.load(Ordering::Relaxed),
     "per_segment_topk_failures_in_worlds_where_every_document_has_a_collapse_value" => seg_topk_no_missing.load(Ordering::Relaxed),
@@ -798,6 +1055,7 @@ pub fn run(ctx: &Ctx) -> i32 {
       "inner_hits without its own `sort` is only exercised under the default main sort (README: 'sorted independently if you supply sort'; whether the fallback is the request sort or the default sort is not documented; the implementation uses the default sort)".into(),
       "limit < n: only the invariants of the statement are demanded (one hit per value, representative is its group's best, group order, inner hits are other members of the same group in inner-sort order, at most `size`); the number of returned groups may be below `limit` and total_groups / inner_hits only reflect the top limit+1 ranked documents (counted as info, not judged)".into(),
       "collapse field values are single-valued by construction; sort fields are single-valued".into(),
+      "collapse + rescore: the final scores and the candidate list are taken from the same rescored request without collapse (C19's concern); the order of groups is not judged because a lowering rescore leaves the candidate list out of key order by design".into(),
       "ranking itself (scores, sort order of the uncollapsed response) is taken from the implementation (C10's concern)".into(),
     ],
   )
